@@ -250,6 +250,53 @@ func runC09(c *h.Ctx) {
 	}
 	run("history:exhaustive-short", hist)
 	run("history:random-long", rhist)
+	// anonymous origin IDs an implementation's bookkeeping might confuse with something else: the BYTES of an issuer
+	// origin ID already bound for the client, IDs longer than an issuer origin ID that agree on their first 48 bytes
+	// (and the 48-byte prefix itself). One client, every history up to length 4 over this alphabet; all clients, random.
+	{
+		c0 := w.clients[0]
+		long := rnd(c, 48)
+		w2 := &c09World{clients: w.clients, anons: [][]byte{w.anons[0], w.anons[1], c0.idx[0], c0.idx[2], cat(long, []byte("/origin-0001")), cat(long, []byte("/origin-0002")), long}}
+		var a1 []c09Op
+		a1 = append(a1, c09Op{'R', 0, 0, 0})
+		for an := range w2.anons {
+			a1 = append(a1, c09Op{'F', 0, 0, an})
+		}
+		a1 = append(a1, c09Op{'F', 0, 2, 0}, c09Op{'F', 0, 2, 3})
+		var h2 [][]c09Op
+		var gen2 func(prefix []c09Op, l int)
+		gen2 = func(prefix []c09Op, l int) {
+			if len(prefix) > 0 && prefix[0].kind == 'R' { // histories that start with the registration: the others are covered above
+				h2 = append(h2, append([]c09Op{}, prefix...))
+			}
+			if l == 0 || (len(prefix) > 0 && prefix[0].kind != 'R') {
+				return
+			}
+			for _, a := range a1 {
+				gen2(append(prefix, a), l-1)
+			}
+		}
+		ml := 4
+		if c.Thorough() {
+			ml = 5
+		}
+		gen2(nil, ml)
+		alphaW2 := w2.alphabet(3)
+		var r2 [][]c09Op
+		for i := 0; i < nr/2; i++ {
+			n := 4 + c.Rng.Intn(37)
+			hh := make([]c09Op, n)
+			for j := range hh {
+				hh[j] = alphaW2[c.Rng.Intn(len(alphaW2))]
+			}
+			r2 = append(r2, hh)
+		}
+		wSaved := w
+		w = w2
+		run("history:confusable-ids-exhaustive", h2)
+		run("history:confusable-ids-random", r2)
+		w = wSaved
+	}
 	// two attesters with separate caches in one process: what one verified and bound is unknown to the other
 	{
 		cl := w.clients[0]
